@@ -21,7 +21,7 @@ from permcorr import fake_cutoff, impl_cpt_labels, random_near
 from solvers import COMBOS, Prepared, solver_cells
 from tensors import same_span
 
-UNITS = ["BatchGen", "Tables", "EigStruct", "LogIndep", "ShapesRef", "ShapesSolvers", "ShapesPerm", "ShapesSumRule", "ShapesAuxBatch", "ShapesAuxPerm3", "SkelSolvers", "SkelMat", "SkelPerm"]
+UNITS = ["BatchGen", "Tables", "EigStruct", "LogIndep", "ShapesRef", "ShapesSolvers", "ShapesPerm", "ShapesSumRule", "ShapesAuxBatch", "ShapesAuxPerm3", "SkelSolvers", "SkelMat", "SkelPerm", "ShapesBasis", "SkelBasis", "ShapesCoset", "SkelEig", "ShapesAuxEig", "SkelIdx"]
 PROPS = ["props/C11.v"]
 ASSUMPTIONS = ["floating-point non-associativity, BLAS threading and log level are outside any theorem (differential tests, 1e-8 relative)"]
 
@@ -54,6 +54,8 @@ def check(ctx):
     from symfc.solvers import FCSolverO2, FCSolverO3, FCSolverO4
 
     rng = np.random.default_rng(ctx.seed)
+    from basisobj import check_basis_objects
+    check_basis_objects(ctx, "C11", np.random.default_rng(ctx.seed + 77))
     ctx.rule = ("cells as in C06; batch_size in {1,2,3,7,n,n+1}; SYMFC_VERIF_SOLVER_NBATCH in {1,2,N}; PERM_NBATCH in {1,2,3}; SUMRULE_NBATCH in 1..N; EIG_THRESHOLD below/above; "
                 "log_level 0/1; OMP threads 1 vs 16 (subprocess, thorough); explicit n_batch arguments; reference/stable variants on G-tables")
     # ---------------- solvers: snapshot batches, atom batches, log level
